@@ -86,19 +86,30 @@ shape batch + [2]): every sample receives the whole value -/
 def opSetConst : TOp :=
   ⟨id, fun _ n => n, fun b l => (l.filter (fun p => p.1 != "c")) ++ [("c", arangeT 100000 (b ++ [2]))]⟩
 
+/-- `torch.nn.functional.linear(x, w, bias)` on coordinate maps, with `nb` leading (per-sample) batch dims:
+`w : c ++ [nout, nin]`, `bias : c ++ [nout]`, `x : c ++ [nin]`  ↦  `y : c ++ [nout]` -/
+def linearT (nb : Nat) (w bias x : T) : T :=
+  ⟨bias.shape, fun c =>
+    ((List.range (x.shape.getD nb 0)).map (fun k => w.get (c ++ [k]) * x.get (c.take nb ++ [k]))).foldl (· + ·) 0 + bias.get c⟩
+
 /-- a functional module call `with params.to_module(net): net(x)` for `net = torch.nn.Linear(nin, nout)`
 (tensordict/base.py:to_module swaps the entries of `params` into the module for the duration of the call, so the
-call computes with exactly these tensors): `y = x @ weight.T + bias`, with `ba` leading (per-sample) batch dims.
-`a` = the parameter tensordict {weight : ba ++ [nout, nin], bias : ba ++ [nout]}, `b` = {x : ba ++ [nin]} -/
+call computes with exactly these tensors).  `a` = the parameter tensordict {weight, bias}, `b` = {x} -/
 def opLinear : TOp2 :=
   ⟨fun ba _ => ba, fun _ _ na _ => na,
    fun ba _ la lb =>
      match la.lookup "weight", la.lookup "bias", lb.lookup "x" with
-     | some w, some bias, some x =>
-       let nin := x.shape.getD ba.length 0
-       [("y", ⟨bias.shape, fun c =>
-          ((List.range nin).map (fun k => w.get (c ++ [k]) * x.get (c.take ba.length ++ [k]))).foldl (· + ·) 0 + bias.get c⟩)]
+     | some w, some bias, some x => [("y", linearT ba.length w bias x)]
      | _, _, _ => []⟩
+
+/-- the same for `net = torch.nn.Sequential(Linear(nin, h), Linear(h, nout))`: the parameter tensordict is NESTED
+({"0": {weight, bias}, "1": {weight, bias}}, flat names "0.weight" …); every nested node shares the vmapped dim -/
+def opSeq2 : TOp2 :=
+  ⟨fun ba _ => ba, fun _ _ na _ => na,
+   fun ba _ la lb =>
+     match la.lookup "0.weight", la.lookup "0.bias", la.lookup "1.weight", la.lookup "1.bias", lb.lookup "x" with
+     | some w0, some b0, some w1, some b1, some x => [("y", linearT ba.length w1 b1 (linearT ba.length w0 b0 x))]
+     | _, _, _, _, _ => []⟩
 
 /-- is the operation applicable to a tensordict of this batch size / these keys (else the real call raises) -/
 inductive OpName where
